@@ -561,8 +561,12 @@ inductive Op
 def applyRingOp (t0 : Int) (clash : Bool) (d : Desc) : Op → Desc
   | .hb id delta st mask =>
     let k := idIndex id
+    -- mask bits 4 / 5: the heartbeat switches the instance to read-only / back to read-write, stamped with its own time
+    let roSet := (mask / 16) % 2 = 1
+    let roClr := (mask / 32) % 2 = 1
     C03.upsert { id := id, addr := "addr-" ++ id, zone := "z" ++ toString (k % 2), ts := t0 - delta, state := st,
-                 tokens := maskTokens (tokenPool id clash) mask } d
+                 tokens := maskTokens (tokenPool id clash) mask,
+                 ro := roSet, roTs := if roSet ∨ roClr then t0 - delta else 0 } d
   | .rm id => d.filter (·.id ≠ id)
   | _ => d
 
